@@ -27,7 +27,7 @@ def scenarios(thorough=False):
         # Maps ...): every between-handler crash point of their canonical runs
         import random
         for sc in engine_props.corpus(random.Random(0), False):
-            # (machines with an execution time limit are left out: an execution stuck through C04-F1/F2/F4 is then ended
+            # (machines with a time limit anywhere — the execution's, a Task's — are left out: an execution stuck through C04-F1/F2/F4 is then ended
             # by the limit, States.Timeout, and the exact classification of those findings needs to see it stuck)
             # (the large generated machines kept in corpus/engine.json for C02 / C11 are left out too: several of the open
             # findings combine in them in ways neither the model's skeletons nor the fallback classifier cover)
@@ -37,7 +37,7 @@ def scenarios(thorough=False):
             # order than the engine, and a crash inside that handler leaves the two out of step), and with them the thorough tier
             # does not stay under ten minutes; the quick scenarios `par-retry-vs-late-*` / `par-catch-vs-pending-sibling` and the
             # corpus' `handled-fail-*` / `nested-*` machines keep handled fan-out failures in the check)
-            if sc.extra.get("fail_payload") is None and "TimeoutSeconds" not in sc.machine and not sc.name.startswith(("oversize", "gen")) \
+            if sc.extra.get("fail_payload") is None and "TimeoutSeconds" not in json.dumps([sc.machine, sc.extra.get("machines")], default=str) and not sc.name.startswith(("oversize", "gen", "errsite")) \
                     and sc.sm_type == "STANDARD" and not sc.extra.get("illformed") and not sc.extra.get("finding"):
                 sc.name = "corpus:" + sc.name
                 out.append(sc)
